@@ -283,7 +283,8 @@ def climb_type_tree(var_stack, curr_scope: Scope, obj_tree: dict):
     if var_obj is None:
         return None
     # Search for type, then next variable in stack and so on
-    for _ in range(30):
+    # One step per component of the chain, however long it is
+    for _ in range(len(var_stack)):
         # Find variable type object
         type_obj = var_obj.get_type_obj(obj_tree)
         # Return if not found
@@ -300,5 +301,5 @@ def climb_type_tree(var_stack, curr_scope: Scope, obj_tree: dict):
         if var_obj is None:
             return None
     else:
-        raise KeyError
+        return None
     return type_obj
